@@ -178,6 +178,12 @@ class Graph(object):
         else:
             self.comp["Q2"] = combiner([base.P, base.P2])(mkcls("Q2"))
         ks = [self.comp[x] for x in sorted(g["k"])]
+        if rng.random() < 0.3:
+            # K consumes Q1 through a plain component built on it (a condition component), not directly
+            from insights.core.plugins import component as plain_component
+            cond = plain_component(q1)(mkcls("Cond"))
+            ks = [cond if x is q1 else x for x in ks]
+            self.extra.append(cond)
         if rng.random() < 0.5:
             self.comp["K"] = combiner(*ks)(mkcls("K"))
         else:
